@@ -40,6 +40,29 @@ def fn_body(src, name):
     return None
 
 
+def inline_helpers(body, src, depth=2):
+    """Replace calls to functions defined in the same file by their bodies (textually, `depth` levels), so
+    that a block moved into a private helper is still seen where it runs."""
+    if not body:
+        return body
+    names = set(re.findall(r"\bfn (\w+)\b", src))
+    for _ in range(depth):
+        changed = False
+        for name in names:
+            for m in list(re.finditer(r"(?<![\w:.])%s\(" % re.escape(name), body))[::-1]:
+                # not the definition itself
+                if body[max(0, m.start() - 3):m.start()] == "fn ":
+                    continue
+                hb = fn_body(src, name)
+                if hb is None or hb in body:
+                    continue
+                body = body[:m.start()] + " /*inlined %s*/ " % name + hb + " " + body[m.start():]
+                changed = True
+        if not changed:
+            break
+    return body
+
+
 def combinators(body):
     """Ordered list of stream combinators that follow a spawn_blocking stage."""
     return re.findall(r"\.(buffered|buffer_unordered)\(", body or "")
@@ -61,31 +84,51 @@ def extract(missing):
 
     # 2. the stored-bytes rule of both writers and the raw rule of the reader
     m = re.search(r"if compressed_bytes\.len\(\) (<=|<|>=|>|==) verified\.chunk\(\)\.len\(\) \{\s*&compressed_bytes", lib)
-    f["libStoreCompressedIf"] = m.group(1) if m else missing("stored-bytes rule in create_archive")
+    if m:
+        f["libStoreCompressedIf"] = m.group(1)
+    else:
+        m = re.search(r"if verified\.chunk\(\)\.len\(\) (<=|<|>=|>|==) compressed_bytes\.len\(\) \{\s*&compressed_bytes", lib)
+        f["libStoreCompressedIf"] = {"==": "==", "<": ">", ">": "<", "<=": ">=", ">=": "<="}[m.group(1)] if m else \
+            missing("stored-bytes rule in create_archive")
+    flip = {"==": "==", "!=": "!=", "<": ">", ">": "<", "<=": ">=", ">=": "<="}
     m = re.search(r"let use_uncompressed = compressed\.len\(\) (<=|<|>=|>|==) chunk_len;", cli)
-    f["cliStoreRawIf"] = m.group(1) if m else missing("stored-bytes rule in chunk_input")
-    m = re.search(r"compression: if source_size (==|!=|<=|>=|<|>) chunk\.len\(\) \{", arch)
+    if m:
+        f["cliStoreRawIf"] = m.group(1)
+    else:
+        m = re.search(r"let use_uncompressed = chunk_len (<=|<|>=|>|==) compressed\.len\(\);", cli)
+        f["cliStoreRawIf"] = flip[m.group(1)] if m else missing("stored-bytes rule in chunk_input")
+    cs = fn_body(arch, "chunk_stream") or arch
+    m = re.search(r"if source_size (==|<=|>=|<|>) chunk\.len\(\) \{\s*None\b", cs)
     if m:
         f["readerRawIf"] = m.group(1)
     else:
-        m = re.search(r"compression: if chunk\.len\(\) (==|!=|<=|>=|<|>) source_size \{", arch)
-        flip = {"==": "==", "!=": "!=", "<": ">", ">": "<", "<=": ">=", ">=": "<="}
-        f["readerRawIf"] = flip[m.group(1)] if m else missing("raw rule in chunk_stream")
+        m = re.search(r"if chunk\.len\(\) (==|<=|>=|<|>) source_size \{\s*None\b", cs)
+        f["readerRawIf"] = {"==": "==", "<": ">", ">": "<", "<=": ">=", ">=": "<="}[m.group(1)] if m else missing("raw rule in chunk_stream")
     # 3. flushes / rewind / pin comparison (the repairs of F4, F7, F3, F6)
-    ci = fn_body(cli, "chunk_input") or ""
-    f["cliTempFlushedBeforeReturn"] = bool(re.search(r"temp_file\s*\.flush\(\)\s*\.await", ci)) and \
-        ci.rfind("temp_file") > ci.rfind(".write_all(use_data)")
-    ca = fn_body(clone, "clone_archive") or ""
-    m_flush = re.search(r"output_file\s*\.flush\(\)\s*\.await", ca)
+    ci = inline_helpers(fn_body(cli, "chunk_input") or "", cli)
+    flushes = [m.start() for m in re.finditer(r"\w+\s*\.flush\(\)\s*\.await", ci)]
+    f["cliTempFlushedBeforeReturn"] = bool(flushes) and flushes[-1] > ci.rfind(".write_all(")
+    ca = inline_helpers(fn_body(clone, "clone_archive") or "", clone)
+    m_flush = re.search(r"\w+\s*\.flush\(\)\s*\.await", ca)
     m_setlen = re.search(r"\.set_len\(", ca)
     f["cloneOutputFlushedBeforeResize"] = bool(m_flush and m_setlen and m_flush.start() < m_setlen.start())
     fs = fn_body(clone, "file_size") or ""
     f["fileSizeRewinds"] = bool(re.search(r"SeekFrom::End\(0\).*SeekFrom::Start\(0\)", fs, re.S))
-    m = re.search(r"if ([^\{]*expected_checksum[^\{]*) \{\s*return Err\(anyhow!\(\"Header checksum mismatch\"\)\)", ca, re.S)
-    cmp_ = re.sub(r"\s+", " ", m.group(1)).strip() if m else None
+    # `if <a> != <b> { return Err("Header checksum mismatch") }`, or the same test with `==` and the error in
+    # the else branch; operands in either order
+    cmp_ = None
+    m = re.search(r"if ([^\{;]*?) \{\s*return Err\(anyhow!\(\"Header checksum mismatch\"\)\)", ca, re.S)
+    if m:
+        cmp_ = re.sub(r"\s+", " ", m.group(1)).strip()
+    else:
+        m = re.search(r"if ([^\{;]*?) \{[^{}]*\}\s*else\s*\{\s*return Err\(anyhow!\(\"Header checksum mismatch\"\)\)", ca, re.S)
+        if m:
+            c = re.sub(r"\s+", " ", m.group(1)).strip()
+            if " == " in c:
+                cmp_ = c.replace(" == ", " != ")
     f["pinComparison"] = cmp_ or missing("header pin comparison")
-    f["pinComparesFullBytes"] = cmp_ in ("expected_checksum.slice() != archive.header_checksum().slice()",
-                                         "archive.header_checksum().slice() != expected_checksum.slice()")
+    sides = sorted(x.strip() for x in (cmp_ or "").split(" != "))
+    f["pinComparesFullBytes"] = sides == ["archive.header_checksum().slice()", "expected_checksum.slice()"]
 
     # 4. open options of the clone output, the compress output and the temp file, as Boolean expressions
     def open_opts(body, anchor):
@@ -100,9 +143,11 @@ def extract(missing):
             res[name] = re.sub(r"\s+", " ", mm.group(1)).strip() if mm else "false"
         return res
 
-    f["cloneOpen"] = open_opts(ca, "tokio::fs::OpenOptions::new()") or missing("clone output open options")
-    cc = fn_body(cli, "compress_cmd") or ""
-    f["compressOpen"] = open_opts(cc, "std::fs::OpenOptions::new()") or missing("compress output open options")
+    f["cloneOpen"] = open_opts(ca, "OpenOptions::new()") or missing("clone output open options")
+    cc = inline_helpers(fn_body(cli, "compress_cmd") or "", cli)
+    # compress_cmd opens the output first; the temp file is opened inside chunk_input
+    cc_own = fn_body(cli, "compress_cmd") or ""
+    f["compressOpen"] = open_opts(cc_own if "OpenOptions::new()" in cc_own else cc, "OpenOptions::new()") or missing("compress output open options")
     f["tempOpen"] = open_opts(ci, "OpenOptions::new()") or missing("temp file open options")
 
     # 5. order of the steps of clone_archive and compress_cmd (positions of the calls in the source)
@@ -122,14 +167,14 @@ def extract(missing):
         ("device_check", r"is_block_dev\("), ("scan_output", r"chunk_index_from_readable\("),
         ("reorder", r"\.reorder_in_place\("), ("seed_stdin", r"tokio::io::stdin\(\)"),
         ("seed_files", r"for seed_path in"), ("fetch", r"clone_from_archive\("),
-        ("flush", r"output_file\s*\.flush\(\)"), ("resize", r"\.set_len\("), ("verify_output", r"file_checksum\("),
+        ("flush", r"\w+\s*\.flush\(\)\s*\.await"), ("resize", r"\.set_len\("), ("verify_output", r"file_checksum\("),
     ])
     f["compressStepOrder"] = order(cc, [
-        ("open_output", r"std::fs::OpenOptions::new\(\)"), ("chunk_input", r"chunk_input\("),
+        ("open_output", r"OpenOptions::new\(\)"), ("chunk_input", r"chunk_input\("),
         ("build_header", r"header::build\("), ("write_header", r"write_all\(&header_buf\)"),
         ("copy_temp", r"std::io::copy\("), ("remove_temp", r"remove_file\("), ("print_info", r"print_archive_reader\("),
     ])
-    m = re.search(r'Path::with_extension\(output, "([^"]*)"\)', strip_comments(rd("src/cli.rs")))
+    m = re.search(r'with_extension\((?:output,\s*)?"([^"]*)"\)', strip_comments(rd("src/cli.rs")))
     f["tempExtension"] = m.group(1) if m else missing("temp file extension")
     # files opened by clone other than the output: seeds and archive must be File::open (read-only)
     f["cloneSeedOpen"] = "File::open" if re.search(r"let file = File::open\(seed_path\)", ca) else missing("seed open")
@@ -170,9 +215,11 @@ FLAG_NAMES = {"opts.force_create": "o.force", "opts.seed_output": "o.seedOutput"
 
 def bool_expr(src):
     """Translate a Rust Boolean expression over the options into Lean; None if it has anything else."""
-    toks = re.findall(r"opts\.\w+|\|\||&&|!|\(|\)|true|false|\S+", src or "")
+    toks = re.findall(r"\w+\.\w+|\|\||&&|!|\(|\)|true|false|\S+", src or "")
     out = []
     for t in toks:
+        if re.fullmatch(r"\w+\.(force_create|seed_output|verify_output)", t):
+            t = "opts." + t.split(".")[1]
         if t in FLAG_NAMES:
             out.append(FLAG_NAMES[t])
         elif t in ("||", "&&", "!", "(", ")"):
